@@ -12,11 +12,11 @@
 (* post-state with the exact functional model; a divergence is attributed  *)
 (* to the property whose footprint contains the diverging field, or to     *)
 (* "MODEL" when it belongs to no property of this module (development      *)
-(* gate); an index image that differs from the model is attributed to C21  *)
-(* only when the records agree with the model (otherwise the index may     *)
-(* well agree with the diverging records, which is all C21 states; the     *)
-(* property-level Inv_C21 decides).  (The                                  *)
-(* _all configuration must accept the unchanged tree.)                     *)
+(* gate: the _all configuration must accept the unchanged tree).  An index *)
+(* image that differs from the model is attributed to C21 only when the    *)
+(* records agree with the model: otherwise the index may well agree with   *)
+(* the diverging records, which is all that C21 states, and the            *)
+(* property-level Inv_C21 decides at the next EndBlock.                    *)
 (*                                                                         *)
 (* Ghosts (small state variables): donated = coins sent to the pool        *)
 (* address by successful send transactions (known finding of C19);         *)
